@@ -572,6 +572,56 @@ def run(ctx):
             model_ok = False
             ctx.notes.append('model evaluation failed: ' + str(e)[-500:])
 
+    # ---- (i) the lookup as a SEARCH performs it (PIT call site): the pattern a layer satisfies is decided by the layer's own
+    #          hyper-parameters, in every registration order, also when the specification is assigned in the middle of a search
+    #          (masks moved, channels pruned) — a depthwise layer stays a depthwise layer whatever its masks say
+    try:
+        from plinio.methods import PIT
+        tagfn = lambda t: (lambda spec_: torch.tensor(float(t)))
+        for i in range(6 if ctx.quick else 40):
+            C = ctx.rng.choice([4, 6, 8])
+            torch.manual_seed(ctx.seed * 977 + i)
+            net = nn.Sequential(nn.Conv2d(3, C, 3, padding=1), nn.ReLU(), nn.Conv2d(C, C, 3, padding=1, groups=C), nn.ReLU(), nn.Conv2d(C, C + 2, 1), nn.ReLU(),
+                                nn.AdaptiveAvgPool2d(1), nn.Flatten(), nn.Linear(C + 2, 3))
+            pats = [('Conv2d', None, 1), ('Conv2d', 'conv_dw_constraint', 100), ('Linear', None, 10000)]
+            ctx.rng.shuffle(pats)
+            when = ctx.rng.choice(['at-construction', 'after-masks-moved', 'after-search-steps'])
+            disc = ctx.rng.random() < 0.5
+            def mkspec():
+                sp = cs.CostSpec(shared=True, default_behavior='zero')
+                for (t, c_, tag) in pats:
+                    sp[(getattr(nn, t), None if c_ is None else getattr(pt, c_))] = tagfn(tag)
+                return sp
+            info = {'pit_call_site': {'channels': C, 'registration_order': pats, 'specification_assigned': when, 'discrete_cost': disc}}
+            try:
+                if when == 'at-construction':
+                    p_ = PIT(net, input_shape=(3, 6, 6), cost=mkspec(), discrete_cost=disc)
+                else:
+                    p_ = PIT(net, input_shape=(3, 6, 6), discrete_cost=disc)
+                    if when == 'after-masks-moved':
+                        with torch.no_grad():
+                            for _n, q in p_.named_nas_parameters():
+                                q.copy_(torch.tensor([ctx.rng.choice([-0.9, -0.2, 0.1, 0.3, 0.7, 1.0]) for _ in range(q.numel())]).reshape(q.shape))
+                    else:
+                        opt = torch.optim.SGD(p_.parameters(), lr=0.3)
+                        for _ in range(3):
+                            opt.zero_grad()
+                            (p_(torch.randn(2, 3, 6, 6)).pow(2).mean() + 1e-2 * p_.cost).backward()
+                            opt.step()
+                    p_.cost_specification = mkspec()
+                got = float(p_.cost)
+                exc = None
+            except Exception as ex:
+                got, exc = None, '%s: %s' % (type(ex).__name__, str(ex)[:200])
+            want = 2 * 1 + 100 + 10000      # two ordinary convolutions, one depthwise convolution, one linear layer
+            ctx.case(('pit-site', C, repr(pats), when, disc), nontrivial=True, kind='pit-call-site:' + when)
+            ctx.corr += 1
+            if got != want:
+                ctx.violation('lookup-differs-from-rule:pit-call-site', dict(info, impl_cost=got, required_cost=want, exception=exc),
+                              'a PIT model (conv3x3, depthwise conv3x3, conv1x1, linear) with tag cost functions generic=1, depthwise=100, linear=10000 registered in the order %s, specification assigned %s: cost %r, required %r (each layer costed by the pattern its own hyper-parameters satisfy)%s' % (pats, when, got, want, '; ' + exc if exc else ''))
+    except ImportError as ex:
+        ctx.notes.append('PIT call-site stream skipped: ' + str(ex))
+
     # ---- broken proof / correspondence without a failing input
     if not ctx.violations:   # a printed KNOWN-FINDING must not hide a broken proof / model / correspondence
         if not built and gen_rejected:
@@ -597,6 +647,28 @@ def run(ctx):
 def replay(r):
     torch, nn, cs, pt = _env()
     c = r.get('case')
+    if 'pit_call_site' in r:
+        from plinio.methods import PIT
+        d = r['pit_call_site']
+        C = d['channels']
+        net = nn.Sequential(nn.Conv2d(3, C, 3, padding=1), nn.ReLU(), nn.Conv2d(C, C, 3, padding=1, groups=C), nn.ReLU(), nn.Conv2d(C, C + 2, 1), nn.ReLU(),
+                            nn.AdaptiveAvgPool2d(1), nn.Flatten(), nn.Linear(C + 2, 3))
+        def mkspec():
+            sp = cs.CostSpec(shared=True, default_behavior='zero')
+            for (t, c_, tag) in d['registration_order']:
+                sp[(getattr(nn, t), None if c_ is None else getattr(pt, c_))] = (lambda tg: (lambda s_: torch.tensor(float(tg))))(tag)
+            return sp
+        if d['specification_assigned'] == 'at-construction':
+            p_ = PIT(net, input_shape=(3, 6, 6), cost=mkspec(), discrete_cost=d['discrete_cost'])
+        else:
+            p_ = PIT(net, input_shape=(3, 6, 6), discrete_cost=d['discrete_cost'])
+            with torch.no_grad():
+                for _n, q in p_.named_nas_parameters():
+                    q.copy_(torch.linspace(-0.9, 1.0, q.numel()).reshape(q.shape))
+            p_.cost_specification = mkspec()
+        got = float(p_.cost)
+        print('cost', got, 'required', r.get('required_cost'))
+        return 0 if got == r.get('required_cost') else 1
     if 'default_on_unmatched' in r:
         d = r['default_on_unmatched']
         ty = getattr(nn, d['type'])
